@@ -47,6 +47,28 @@ def handleIds (toks : List String) : Option String :=
     some (" ; ".intercalate (mains.map (fun m =>
       let ids := componentIds dirOfPath ivs (if m == "-" then [] else m.splitOn ",")
       if ids.isEmpty then "-" else natList ids)))
+  -- judge:number <path:count>… | <path:start:end>… | <total ids…>
+  -- the property's wording: files taken in byte-wise path order, each file's calls in source
+  -- order, receive consecutive identifiers starting at 1; the declared ids are 1..N
+  | "judge:number" :: rest =>
+    let fs := (rest.takeWhile (· != "|")).map parseCount
+    let r1 := (rest.dropWhile (· != "|")).drop 1
+    let ivToks := r1.takeWhile (· != "|")
+    let tot := ((r1.dropWhile (· != "|")).drop 1).filterMap String.toNat?
+    let sorted := fs.mergeSort (fun a b => a.1 ≤ b.1)
+    let ivOf (p : String) : Option (Nat × Option Nat) :=
+      ivToks.findSome? (fun t =>
+        match (t.splitOn ":").reverse with
+        | e :: st :: r => if ":".intercalate r.reverse == p then st.toNat?.map (fun s => (s, e.toNat?)) else none
+        | _ => none)
+    let rec walk (next : Nat) : List (String × Nat) → Bool
+      | [] => true
+      | (p, c) :: r =>
+        match ivOf p with
+        | some (s, e) => s == next && (if c == 0 then e.isNone || e == some (next - 1) else e == some (next + c - 1)) && walk (next + c) r
+        | none => false
+    let n := (fs.map (·.2)).sum
+    some (if walk 1 sorted && tot == List.range' 1 n then "ok" else "bad C05:ids-not-1..N-by-path-and-source-order")
   | "closure" :: rest =>
     match parseGraph rest with
     | some (fuel, main, imp) => some (natList (sortInts (collect imp fuel main [])))
